@@ -27,7 +27,7 @@ RULE = ("Hypothesis: a history of 1-8 operations (append / delete_files / expire
         "distinct = hash of (history, damage, action).")
 ASSUMPTIONS = ["'committed' = a version the pointer named after a call that returned success (pointer history recorded by the harness)",
                "the pointer of a healthy table with trailing newline/CRLF/space is still the current pointer (parser strips whitespace)"]
-REQUIRED_LABELS = {"quick": ["orphan-higher-than-committed", "damage:stale", "damage:deleted", "action:create_table"], "thorough": ["orphan-higher-than-committed"]}
+REQUIRED_LABELS = {"quick": ["orphan-higher-than-committed", "damage:stale", "damage:deleted", "action:create_table", "versions>=10"], "thorough": ["orphan-higher-than-committed"]}
 
 DAMAGES = ["deleted", "empty", "whitespace", "random", "invalid_utf8", "digits_missing", "digits_huge", "legacy_name", "missing_file", "stale",
            "orphan", "current_lf", "current_crlf", "current_spaces", "path_sep", "dotdot", "long_garbage"]
@@ -39,6 +39,9 @@ def case_strategy(draw):
     base = step_strategy(gc=False, clock_ticks="none", props_ops=False, open_txn=False)
     extra = st.one_of(st.just({"op": "failed_commit"}), st.just({"op": "crash_before_flip"}), st.just({"op": "append", "n": 1}))
     steps = [{"op": "append", "n": 1}] + draw(st.lists(st.one_of(base, extra, extra), min_size=0, max_size=7))
+    if draw(st.integers(0, 24)) == 0:
+        # long histories: two-digit version numbers (v9 -> v10 ordering), optionally followed by the usual mix
+        steps = [{"op": "append", "n": 1} for _ in range(draw(st.integers(9, 13)))] + steps
     return {"kind": "pointer", "steps": steps, "damage": draw(st.sampled_from(DAMAGES)), "action": draw(st.sampled_from(ACTIONS)),
             "rnd": draw(st.binary(min_size=1, max_size=12)), "stale_idx": draw(st.integers(0, 6))}
 
@@ -70,6 +73,8 @@ def check_case(case):
         failed = sum(1 for s in case["steps"] if s["op"] == "failed_commit")
         crashed = sum(1 for s in case["steps"] if s["op"] == "crash_before_flip")
         vL = _version_of(L)
+        if vL is not None and vL >= 10:
+            out["labels"].append("versions>=10")
         higher = [o for o in orphans if _version_of(o) >= vL]
         if higher:
             out["labels"].append("orphan-higher-than-committed")
